@@ -14,7 +14,9 @@ Section Sig.
   Hypothesis Hlen : length tnames = length insts.
   Hypothesis Hcpp : tn_cpp (match cpp with Some x => x | None => Typename [] (NStr "") [] end) = this_cpp.
 
-  Definition dom_args (l : list arg) : bool := forallb (fun a => dom_ty tnames insts (a_ty a)) l.
+  Definition dom_args (l : list arg) : bool := forallb (fun a => dom_q q tnames insts (a_ty a)) l.
+  Definition dom_ret_q (r : ret) : bool :=
+    match r with RSingle t => dom_q q tnames insts t | RPair a b => andb (dom_q q tnames insts a) (dom_q q tnames insts b) end.
 
   Lemma inst_args_refines : forall l, dom_args l = true ->
     map (fun a => ty_cpp (a_ty a)) (inst_args q tnames insts cpp l)
@@ -23,7 +25,7 @@ Section Sig.
     induction l as [|a l IH]; intros H; [reflexivity|].
     cbn [dom_args forallb] in H. apply andb_true_iff in H. destruct H as [Ha Hl].
     cbn [inst_args map inst_arg a_ty].
-    rewrite (inst_type_refines q tnames insts cpp None this_cpp Hlen Hcpp _ Ha).
+    rewrite (inst_type_refines_q q tnames insts cpp None this_cpp Hlen Hcpp _ Ha).
     f_equal. apply IH. exact Hl.
   Qed.
 
@@ -38,14 +40,14 @@ Section Sig.
 
   Lemma inst_ret_refines : forall icls r,
     tn_cpp (match icls with Some x => x | None => match cpp with Some x => x | None => Typename [] (NStr "") [] end end) = this_cpp ->
-    dom_ret tnames insts r = true ->
+    dom_ret_q r = true ->
     ret_cpp (inst_ret q tnames insts cpp icls r) = subst_ret_cpp tnames insts this_cpp r.
   Proof.
-    intros icls r Hi H. destruct r as [t|a b]; cbn [dom_ret] in H; cbn [inst_ret ret_cpp subst_ret_cpp].
-    - apply (inst_type_refines q tnames insts cpp icls this_cpp Hlen Hi _ H).
+    intros icls r Hi H. destruct r as [t|a b]; cbn [dom_ret_q] in H; cbn [inst_ret ret_cpp subst_ret_cpp].
+    - apply (inst_type_refines_q q tnames insts cpp icls this_cpp Hlen Hi _ H).
     - apply andb_true_iff in H. destruct H as [Ha Hb].
-      rewrite (inst_type_refines q tnames insts cpp icls this_cpp Hlen Hi _ Ha).
-      rewrite (inst_type_refines q tnames insts cpp icls this_cpp Hlen Hi _ Hb).
+      rewrite (inst_type_refines_q q tnames insts cpp icls this_cpp Hlen Hi _ Ha).
+      rewrite (inst_type_refines_q q tnames insts cpp icls this_cpp Hlen Hi _ Hb).
       reflexivity.
   Qed.
 End Sig.
